@@ -596,7 +596,11 @@ class SplitMix:
     M = (1 << 64) - 1
 
     def __init__(self, seed):
-        self.s = (seed * 0x9E3779B97F4A7C15 + 0x1234567) & self.M
+        # hash the seed first: with a plain multiple of the increment, the streams of
+        # consecutive seeds would be the same stream shifted by one draw
+        z = (seed * 0xD6E8FEB86659FD93 + 0x1234567) & self.M
+        z = ((z ^ (z >> 32)) * 0xD6E8FEB86659FD93) & self.M
+        self.s = (z ^ (z >> 32)) & self.M
 
     def next(self):
         self.s = (self.s + 0x9E3779B97F4A7C15) & self.M
